@@ -349,39 +349,50 @@ theorem gen_map_insert_rel {h : Nat → Nat} {pt : PTable} {t : Table} (hr : Rel
   gen_map_insert h pt _ k v (by rw [allocItem_withBuckets_fst]; exact hr.alloc_ne_pos hi Kind.map p)
     (hr.link_facts hi Kind.map p 0).1 (hr.link_facts hi Kind.map p _).2
 
-theorem gen_map_clear_loop (h : Nat → Nat) (fuel : Nat) : ∀ (t : PTable) (i : Nxt),
-    HashLink.HashMap.clear_loop1 h fuel t i (.stl t.self) =
-      (PTable.clearLoop fuel i t).map (fun t' => { t' with begin := .stl t'.self, endPrev := none, size := 0 }) := by
-  induction fuel with
-  | zero =>
-    intro t i
-    cases i with
-    | stl o =>
-      unfold HashLink.HashMap.clear_loop1 PTable.clearLoop
-      by_cases ho : o = t.self <;> simp [ho]
-    | item a => simp [HashLink.HashMap.clear_loop1, PTable.clearLoop]
-  | succ f ih =>
-    intro t i
-    cases i with
-    | stl o =>
-      unfold HashLink.HashMap.clear_loop1 PTable.clearLoop
-      by_cases ho : o = t.self <;> simp [ho]
-    | item a =>
-      unfold HashLink.HashMap.clear_loop1 PTable.clearLoop
-      simp only [reduceCtorEq, if_false]
-      have hs : ({ (t.writeCell (t.items a).cell none).setPrev a (t.writeCell (t.items a).cell none).freeItem with freeItem := some a } : PTable).self = t.self := by
-        show (t.writeCell (t.items a).cell none).self = t.self
-        exact writeCell_self _ _ _
-      rw [← hs]
-      exact ih _ _
-
-/-- The translated `HashMap::clear()` is the model's `clear` (`*i->cell = 0; i->prev = freeItem; freeItem = i` along `next`
-    up to the own sentinel, then the list members reset), for EVERY table; a fault on a foreign sentinel / out of fuel iff the
-    model faults. -/
-theorem gen_map_clear (h : Nat → Nat) (t : PTable) : HashLink.HashMap.clear h t = t.clear := by
-  unfold HashLink.HashMap.clear PTable.clear
-  rw [gen_map_clear_loop]
-  cases PTable.clearLoop t.size t.begin t <;> rfl
+/-- The translated `HashMap::clear()` SIMULATES the clear of the chain-list model on every represented table: it does not fault
+    and the table it leaves represents `t.clear` (all bucket heads null, empty order list, every former item on the free list in
+    the order last … first, keys and values untouched) – the coupling `Rel` says nothing about the `nextCell` / `cell` / `next`
+    fields of released items, so bodies that differ only in what they leave in those fields (per-item `*i->cell = 0` vs one
+    `Memory::zero` of the bucket array, harmless change C02-h5) satisfy the same statement.  For the shape of the current header the
+    proof goes through the equation `translated clear = PTable.clear` (loop `*i->cell = 0; i->prev = freeItem; freeItem = i`
+    along `next` up to the own sentinel, then the list members reset), which holds for EVERY table. -/
+theorem gen_map_clear {h : Nat → Nat} {pt : PTable} {t : Table} (hr : Rel pt t) (hi : t.Inv h) :
+    ∃ pt', HashLink.HashMap.clear h pt = some pt' ∧ Rel pt' t.clear ∧ pt'.self = pt.self := by
+  first
+  | -- the per-item loop of the current header: equal to the pointer-level model's `clear`
+    have heq : ∀ t : PTable, HashLink.HashMap.clear h t = t.clear := by
+      have hloop : ∀ (fuel : Nat) (t : PTable) (i : Nxt),
+          HashLink.HashMap.clear_loop1 h fuel t i (.stl t.self) =
+            (PTable.clearLoop fuel i t).map (fun t' => { t' with begin := .stl t'.self, endPrev := none, size := 0 }) := by
+        intro fuel
+        induction fuel with
+        | zero =>
+          intro t i
+          cases i with
+          | stl o =>
+            unfold HashLink.HashMap.clear_loop1 PTable.clearLoop
+            by_cases ho : o = t.self <;> simp [ho]
+          | item a => simp [HashLink.HashMap.clear_loop1, PTable.clearLoop]
+        | succ f ih =>
+          intro t i
+          cases i with
+          | stl o =>
+            unfold HashLink.HashMap.clear_loop1 PTable.clearLoop
+            by_cases ho : o = t.self <;> simp [ho]
+          | item a =>
+            unfold HashLink.HashMap.clear_loop1 PTable.clearLoop
+            simp only [reduceCtorEq, if_false]
+            have hs : ({ (t.writeCell (t.items a).cell none).setPrev a (t.writeCell (t.items a).cell none).freeItem with freeItem := some a } : PTable).self = t.self := by
+              show (t.writeCell (t.items a).cell none).self = t.self
+              exact writeCell_self _ _ _
+            rw [← hs]
+            exact ih _ _
+      intro t
+      unfold HashLink.HashMap.clear PTable.clear
+      rw [hloop]
+      cases PTable.clearLoop t.size t.begin t <;> rfl
+    rw [heq]
+    exact hr.clear hi
 
 /-- The translated `HashMap::swap(other)` (two distinct objects, each with its node heap: every pointer is translated
     together with the heap it points into, and the translator checks that afterwards all members of an object designate
@@ -709,39 +720,50 @@ theorem gen_set_insert_rel {h : Nat → Nat} {pt : PTable} {t : Table} (hr : Rel
   gen_set_insert h pt _ k v (by rw [allocItem_withBuckets_fst]; exact hr.alloc_ne_pos hi Kind.set p)
     (hr.link_facts hi Kind.set p 0).1 (hr.link_facts hi Kind.set p _).2
 
-theorem gen_set_clear_loop (h : Nat → Nat) (fuel : Nat) : ∀ (t : PTable) (i : Nxt),
-    HashLink.HashSet.clear_loop1 h fuel t i (.stl t.self) =
-      (PTable.clearLoop fuel i t).map (fun t' => { t' with begin := .stl t'.self, endPrev := none, size := 0 }) := by
-  induction fuel with
-  | zero =>
-    intro t i
-    cases i with
-    | stl o =>
-      unfold HashLink.HashSet.clear_loop1 PTable.clearLoop
-      by_cases ho : o = t.self <;> simp [ho]
-    | item a => simp [HashLink.HashSet.clear_loop1, PTable.clearLoop]
-  | succ f ih =>
-    intro t i
-    cases i with
-    | stl o =>
-      unfold HashLink.HashSet.clear_loop1 PTable.clearLoop
-      by_cases ho : o = t.self <;> simp [ho]
-    | item a =>
-      unfold HashLink.HashSet.clear_loop1 PTable.clearLoop
-      simp only [reduceCtorEq, if_false]
-      have hs : ({ (t.writeCell (t.items a).cell none).setPrev a (t.writeCell (t.items a).cell none).freeItem with freeItem := some a } : PTable).self = t.self := by
-        show (t.writeCell (t.items a).cell none).self = t.self
-        exact writeCell_self _ _ _
-      rw [← hs]
-      exact ih _ _
-
-/-- The translated `HashSet::clear()` is the model's `clear` (`*i->cell = 0; i->prev = freeItem; freeItem = i` along `next`
-    up to the own sentinel, then the list members reset), for EVERY table; a fault on a foreign sentinel / out of fuel iff the
-    model faults. -/
-theorem gen_set_clear (h : Nat → Nat) (t : PTable) : HashLink.HashSet.clear h t = t.clear := by
-  unfold HashLink.HashSet.clear PTable.clear
-  rw [gen_set_clear_loop]
-  cases PTable.clearLoop t.size t.begin t <;> rfl
+/-- The translated `HashSet::clear()` SIMULATES the clear of the chain-list model on every represented table: it does not fault
+    and the table it leaves represents `t.clear` (all bucket heads null, empty order list, every former item on the free list in
+    the order last … first, keys and values untouched) – the coupling `Rel` says nothing about the `nextCell` / `cell` / `next`
+    fields of released items, so bodies that differ only in what they leave in those fields (per-item `*i->cell = 0` vs one
+    `Memory::zero` of the bucket array, harmless change C02-h5) satisfy the same statement.  For the shape of the current header the
+    proof goes through the equation `translated clear = PTable.clear` (loop `*i->cell = 0; i->prev = freeItem; freeItem = i`
+    along `next` up to the own sentinel, then the list members reset), which holds for EVERY table. -/
+theorem gen_set_clear {h : Nat → Nat} {pt : PTable} {t : Table} (hr : Rel pt t) (hi : t.Inv h) :
+    ∃ pt', HashLink.HashSet.clear h pt = some pt' ∧ Rel pt' t.clear ∧ pt'.self = pt.self := by
+  first
+  | -- the per-item loop of the current header: equal to the pointer-level model's `clear`
+    have heq : ∀ t : PTable, HashLink.HashSet.clear h t = t.clear := by
+      have hloop : ∀ (fuel : Nat) (t : PTable) (i : Nxt),
+          HashLink.HashSet.clear_loop1 h fuel t i (.stl t.self) =
+            (PTable.clearLoop fuel i t).map (fun t' => { t' with begin := .stl t'.self, endPrev := none, size := 0 }) := by
+        intro fuel
+        induction fuel with
+        | zero =>
+          intro t i
+          cases i with
+          | stl o =>
+            unfold HashLink.HashSet.clear_loop1 PTable.clearLoop
+            by_cases ho : o = t.self <;> simp [ho]
+          | item a => simp [HashLink.HashSet.clear_loop1, PTable.clearLoop]
+        | succ f ih =>
+          intro t i
+          cases i with
+          | stl o =>
+            unfold HashLink.HashSet.clear_loop1 PTable.clearLoop
+            by_cases ho : o = t.self <;> simp [ho]
+          | item a =>
+            unfold HashLink.HashSet.clear_loop1 PTable.clearLoop
+            simp only [reduceCtorEq, if_false]
+            have hs : ({ (t.writeCell (t.items a).cell none).setPrev a (t.writeCell (t.items a).cell none).freeItem with freeItem := some a } : PTable).self = t.self := by
+              show (t.writeCell (t.items a).cell none).self = t.self
+              exact writeCell_self _ _ _
+            rw [← hs]
+            exact ih _ _
+      intro t
+      unfold HashLink.HashSet.clear PTable.clear
+      rw [hloop]
+      cases PTable.clearLoop t.size t.begin t <;> rfl
+    rw [heq]
+    exact hr.clear hi
 
 
 /-- The translated `HashSet::swap(other)` (two distinct objects, each with its node heap: every pointer is translated
@@ -1077,39 +1099,50 @@ theorem gen_pool_insert_rel {h : Nat → Nat} {pt : PTable} {t : Table} (hr : Re
   gen_pool_insert h pt _ k v (by rw [allocItem_withBuckets_fst]; exact hr.alloc_ne_pos hi Kind.pool p)
     (hr.link_facts hi Kind.pool p 0).1 (hr.link_facts hi Kind.pool p _).2
 
-theorem gen_pool_clear_loop (h : Nat → Nat) (fuel : Nat) : ∀ (t : PTable) (i : Nxt),
-    HashLink.PoolMap.clear_loop1 h fuel t i (.stl t.self) =
-      (PTable.clearLoop fuel i t).map (fun t' => { t' with begin := .stl t'.self, endPrev := none, size := 0 }) := by
-  induction fuel with
-  | zero =>
-    intro t i
-    cases i with
-    | stl o =>
-      unfold HashLink.PoolMap.clear_loop1 PTable.clearLoop
-      by_cases ho : o = t.self <;> simp [ho]
-    | item a => simp [HashLink.PoolMap.clear_loop1, PTable.clearLoop]
-  | succ f ih =>
-    intro t i
-    cases i with
-    | stl o =>
-      unfold HashLink.PoolMap.clear_loop1 PTable.clearLoop
-      by_cases ho : o = t.self <;> simp [ho]
-    | item a =>
-      unfold HashLink.PoolMap.clear_loop1 PTable.clearLoop
-      simp only [reduceCtorEq, if_false]
-      have hs : ({ (t.writeCell (t.items a).cell none).setPrev a (t.writeCell (t.items a).cell none).freeItem with freeItem := some a } : PTable).self = t.self := by
-        show (t.writeCell (t.items a).cell none).self = t.self
-        exact writeCell_self _ _ _
-      rw [← hs]
-      exact ih _ _
-
-/-- The translated `PoolMap::clear()` is the model's `clear` (`*i->cell = 0; i->prev = freeItem; freeItem = i` along `next`
-    up to the own sentinel, then the list members reset), for EVERY table; a fault on a foreign sentinel / out of fuel iff the
-    model faults. -/
-theorem gen_pool_clear (h : Nat → Nat) (t : PTable) : HashLink.PoolMap.clear h t = t.clear := by
-  unfold HashLink.PoolMap.clear PTable.clear
-  rw [gen_pool_clear_loop]
-  cases PTable.clearLoop t.size t.begin t <;> rfl
+/-- The translated `PoolMap::clear()` SIMULATES the clear of the chain-list model on every represented table: it does not fault
+    and the table it leaves represents `t.clear` (all bucket heads null, empty order list, every former item on the free list in
+    the order last … first, keys and values untouched) – the coupling `Rel` says nothing about the `nextCell` / `cell` / `next`
+    fields of released items, so bodies that differ only in what they leave in those fields (per-item `*i->cell = 0` vs one
+    `Memory::zero` of the bucket array, harmless change C02-h5) satisfy the same statement.  For the shape of the current header the
+    proof goes through the equation `translated clear = PTable.clear` (loop `*i->cell = 0; i->prev = freeItem; freeItem = i`
+    along `next` up to the own sentinel, then the list members reset), which holds for EVERY table. -/
+theorem gen_pool_clear {h : Nat → Nat} {pt : PTable} {t : Table} (hr : Rel pt t) (hi : t.Inv h) :
+    ∃ pt', HashLink.PoolMap.clear h pt = some pt' ∧ Rel pt' t.clear ∧ pt'.self = pt.self := by
+  first
+  | -- the per-item loop of the current header: equal to the pointer-level model's `clear`
+    have heq : ∀ t : PTable, HashLink.PoolMap.clear h t = t.clear := by
+      have hloop : ∀ (fuel : Nat) (t : PTable) (i : Nxt),
+          HashLink.PoolMap.clear_loop1 h fuel t i (.stl t.self) =
+            (PTable.clearLoop fuel i t).map (fun t' => { t' with begin := .stl t'.self, endPrev := none, size := 0 }) := by
+        intro fuel
+        induction fuel with
+        | zero =>
+          intro t i
+          cases i with
+          | stl o =>
+            unfold HashLink.PoolMap.clear_loop1 PTable.clearLoop
+            by_cases ho : o = t.self <;> simp [ho]
+          | item a => simp [HashLink.PoolMap.clear_loop1, PTable.clearLoop]
+        | succ f ih =>
+          intro t i
+          cases i with
+          | stl o =>
+            unfold HashLink.PoolMap.clear_loop1 PTable.clearLoop
+            by_cases ho : o = t.self <;> simp [ho]
+          | item a =>
+            unfold HashLink.PoolMap.clear_loop1 PTable.clearLoop
+            simp only [reduceCtorEq, if_false]
+            have hs : ({ (t.writeCell (t.items a).cell none).setPrev a (t.writeCell (t.items a).cell none).freeItem with freeItem := some a } : PTable).self = t.self := by
+              show (t.writeCell (t.items a).cell none).self = t.self
+              exact writeCell_self _ _ _
+            rw [← hs]
+            exact ih _ _
+      intro t
+      unfold HashLink.PoolMap.clear PTable.clear
+      rw [hloop]
+      cases PTable.clearLoop t.size t.begin t <;> rfl
+    rw [heq]
+    exact hr.clear hi
 
 
 /-- The translated `PoolMap::swap(other)` (two distinct objects, each with its node heap: every pointer is translated
@@ -1123,14 +1156,19 @@ theorem gen_pool_swap (a b : PTable) : HashLink.PoolMap.swap a b = some (PTable.
 /-! ### members that walk the list of `other` (HashMap.hpp, HashSet.hpp) -/
 
 /-- The translated `HashMap::operator=(other)` for ANOTHER object (`this == &other` is false: the guard line is the model's
-    `assignSelf`) – `clear()`, then `append(i->key, i->value)` along `other`'s list up to `other`'s sentinel, the reads from
-    `other`'s items – is the model's `assignFrom`, on every represented table and for EVERY source table. -/
-theorem gen_map_assign {h : Nat → Nat} {pt : PTable} {t : Table} (hr : Rel pt t) (hi : t.Inv h) (o : PTable) :
-    HashLink.HashMap.assign h pt o = pt.assignFrom Kind.map h o := by
+    `assignSelf`) – `clear()`, then `append(…)` along `other`'s list up to `other`'s sentinel, the reads from `other`'s items –
+    SIMULATES the assignment of the chain-list model: on represented tables it does not fault and leaves a table that represents
+    `t.assignFrom o` (through the simulation statement of `clear` and the equation loop = `appendLoop`). -/
+theorem gen_map_assign {h : Nat → Nat} {pt po : PTable} {t o : Table} (hr : Rel pt t) (ho : Rel po o) (hi : t.Inv h) (hio : o.Inv h) :
+    ∃ pt', HashLink.HashMap.assign h pt po = some pt' ∧ Rel pt' (Table.assignFrom Kind.map h t o) ∧ pt'.self = pt.self := by
+  obtain ⟨pc, e1, e2, e3⟩ := gen_map_clear hr hi
+  obtain ⟨pt', f1, f2, f3⟩ := e2.appendAll ho hi.clear.1 hio Kind.map
+  unfold PTable.appendAll at f1
+  refine ⟨pt', ?_, f2, by rw [f3, e3]⟩
   first
   | -- the loop over `other`'s list written in `operator=` itself
     have hloop : ∀ (fuel : Nat) (pt : PTable) (t : Table) (i : Nxt), Rel pt t → t.Inv h →
-        HashLink.HashMap.assign_loop1 h fuel pt o i (.stl o.self) = PTable.appendLoop Kind.map h o.self o.items fuel i pt := by
+        HashLink.HashMap.assign_loop1 h fuel pt po i (.stl po.self) = PTable.appendLoop Kind.map h po.self po.items fuel i pt := by
       intro fuel
       induction fuel with
       | zero =>
@@ -1138,33 +1176,33 @@ theorem gen_map_assign {h : Nat → Nat} {pt : PTable} {t : Table} (hr : Rel pt 
         cases i with
         | stl s =>
           unfold HashLink.HashMap.assign_loop1 PTable.appendLoop
-          by_cases hs : s = o.self <;> simp [hs]
+          by_cases hs : s = po.self <;> simp [hs]
         | item a => simp [HashLink.HashMap.assign_loop1, PTable.appendLoop]
       | succ f ih =>
         intro pt t i hr hi
         cases i with
         | stl s =>
           unfold HashLink.HashMap.assign_loop1 PTable.appendLoop
-          by_cases hs : s = o.self <;> simp [hs]
+          by_cases hs : s = po.self <;> simp [hs]
         | item a =>
           unfold HashLink.HashMap.assign_loop1 PTable.appendLoop
           simp only [reduceCtorEq, if_false]
-          have e := gen_map_insert_rel hr hi t.order.length (o.items a).key (o.items a).value
+          have e := gen_map_insert_rel hr hi t.order.length (po.items a).key (po.items a).value
           rw [nxtAt_length] at e
           rw [e]
-          obtain ⟨r, e1, _, hr', _⟩ := hr.insert hi Kind.map t.order.length (o.items a).key (o.items a).value (Nat.le_refl _)
+          obtain ⟨r, e1, _, hr', _⟩ := hr.insert hi Kind.map t.order.length (po.items a).key (po.items a).value (Nat.le_refl _)
           rw [nxtAt_length] at e1
           rw [e1]
           simp only [Option.map_some]
-          exact ih r.1 _ _ hr' (hi.insert Kind.map t.order.length (o.items a).key (o.items a).value (Nat.le_refl _)).1
-    unfold HashLink.HashMap.assign PTable.assignFrom PTable.appendAll
-    rw [gen_map_clear]
-    obtain ⟨pt', e, hr', _⟩ := hr.clear hi
-    rw [e]
-    exact hloop _ pt' _ _ hr' hi.clear.1
+          exact ih r.1 _ _ hr' (hi.insert Kind.map t.order.length (po.items a).key (po.items a).value (Nat.le_refl _)).1
+    unfold HashLink.HashMap.assign
+    rw [e1]
+    simp only []
+    rw [hloop _ pc _ _ e2 hi.clear.1]
+    exact f1
   | -- `operator=` calls a member / helper that holds the loop (harmless change C02-h6)
     have hloop : ∀ (fuel : Nat) (pt : PTable) (t : Table) (i : Nxt), Rel pt t → t.Inv h →
-        HashLink.HashMap.appendAll_loop1 h fuel pt o i (.stl o.self) = PTable.appendLoop Kind.map h o.self o.items fuel i pt := by
+        HashLink.HashMap.appendAll_loop1 h fuel pt po i (.stl po.self) = PTable.appendLoop Kind.map h po.self po.items fuel i pt := by
       intro fuel
       induction fuel with
       | zero =>
@@ -1172,31 +1210,28 @@ theorem gen_map_assign {h : Nat → Nat} {pt : PTable} {t : Table} (hr : Rel pt 
         cases i with
         | stl s =>
           unfold HashLink.HashMap.appendAll_loop1 PTable.appendLoop
-          by_cases hs : s = o.self <;> simp [hs]
+          by_cases hs : s = po.self <;> simp [hs]
         | item a => simp [HashLink.HashMap.appendAll_loop1, PTable.appendLoop]
       | succ f ih =>
         intro pt t i hr hi
         cases i with
         | stl s =>
           unfold HashLink.HashMap.appendAll_loop1 PTable.appendLoop
-          by_cases hs : s = o.self <;> simp [hs]
+          by_cases hs : s = po.self <;> simp [hs]
         | item a =>
           unfold HashLink.HashMap.appendAll_loop1 PTable.appendLoop
           simp only [reduceCtorEq, if_false]
-          have e := gen_map_insert_rel hr hi t.order.length (o.items a).key (o.items a).value
+          have e := gen_map_insert_rel hr hi t.order.length (po.items a).key (po.items a).value
           rw [nxtAt_length] at e
           rw [e]
-          obtain ⟨r, e1, _, hr', _⟩ := hr.insert hi Kind.map t.order.length (o.items a).key (o.items a).value (Nat.le_refl _)
+          obtain ⟨r, e1, _, hr', _⟩ := hr.insert hi Kind.map t.order.length (po.items a).key (po.items a).value (Nat.le_refl _)
           rw [nxtAt_length] at e1
           rw [e1]
           simp only [Option.map_some]
-          exact ih r.1 _ _ hr' (hi.insert Kind.map t.order.length (o.items a).key (o.items a).value (Nat.le_refl _)).1
-    unfold HashLink.HashMap.assign HashLink.HashMap.appendAll PTable.assignFrom PTable.appendAll
-    rw [gen_map_clear]
-    obtain ⟨pt', e, hr', _⟩ := hr.clear hi
-    rw [e]
-    simp only [hloop _ pt' _ _ hr' hi.clear.1]
-    cases PTable.appendLoop Kind.map h o.self o.items o.size o.begin pt' <;> rfl
+          exact ih r.1 _ _ hr' (hi.insert Kind.map t.order.length (po.items a).key (po.items a).value (Nat.le_refl _)).1
+    unfold HashLink.HashMap.assign HashLink.HashMap.appendAll
+    rw [e1]
+    simp only [hloop _ pc _ _ e2 hi.clear.1, f1]
 
 /-- The translated `HashMap::operator==` (sizes, then keys and values pairwise along both lists until the own sentinel) is
     the model's `equal`, for EVERY two tables (also a table with itself): a fault where `b->key` would read the other sentinel. -/
@@ -1279,14 +1314,19 @@ theorem gen_map_equal (h : Nat → Nat) (t o : PTable) :
       simp [hs, hs']
 
 /-- The translated `HashSet::operator=(other)` for ANOTHER object (`this == &other` is false: the guard line is the model's
-    `assignSelf`) – `clear()`, then `append(i->key, i->value)` along `other`'s list up to `other`'s sentinel, the reads from
-    `other`'s items – is the model's `assignFrom`, on every represented table and for EVERY source table. -/
-theorem gen_set_assign {h : Nat → Nat} {pt : PTable} {t : Table} (hr : Rel pt t) (hi : t.Inv h) (o : PTable) :
-    HashLink.HashSet.assign h pt o = pt.assignFrom Kind.set h o := by
+    `assignSelf`) – `clear()`, then `append(…)` along `other`'s list up to `other`'s sentinel, the reads from `other`'s items –
+    SIMULATES the assignment of the chain-list model: on represented tables it does not fault and leaves a table that represents
+    `t.assignFrom o` (through the simulation statement of `clear` and the equation loop = `appendLoop`). -/
+theorem gen_set_assign {h : Nat → Nat} {pt po : PTable} {t o : Table} (hr : Rel pt t) (ho : Rel po o) (hi : t.Inv h) (hio : o.Inv h) :
+    ∃ pt', HashLink.HashSet.assign h pt po = some pt' ∧ Rel pt' (Table.assignFrom Kind.set h t o) ∧ pt'.self = pt.self := by
+  obtain ⟨pc, e1, e2, e3⟩ := gen_set_clear hr hi
+  obtain ⟨pt', f1, f2, f3⟩ := e2.appendAll ho hi.clear.1 hio Kind.set
+  unfold PTable.appendAll at f1
+  refine ⟨pt', ?_, f2, by rw [f3, e3]⟩
   first
   | -- the loop over `other`'s list written in `operator=` itself
     have hloop : ∀ (fuel : Nat) (pt : PTable) (t : Table) (i : Nxt), Rel pt t → t.Inv h →
-        HashLink.HashSet.assign_loop1 h fuel pt o i (.stl o.self) = PTable.appendLoop Kind.set h o.self o.items fuel i pt := by
+        HashLink.HashSet.assign_loop1 h fuel pt po i (.stl po.self) = PTable.appendLoop Kind.set h po.self po.items fuel i pt := by
       intro fuel
       induction fuel with
       | zero =>
@@ -1294,33 +1334,33 @@ theorem gen_set_assign {h : Nat → Nat} {pt : PTable} {t : Table} (hr : Rel pt 
         cases i with
         | stl s =>
           unfold HashLink.HashSet.assign_loop1 PTable.appendLoop
-          by_cases hs : s = o.self <;> simp [hs]
+          by_cases hs : s = po.self <;> simp [hs]
         | item a => simp [HashLink.HashSet.assign_loop1, PTable.appendLoop]
       | succ f ih =>
         intro pt t i hr hi
         cases i with
         | stl s =>
           unfold HashLink.HashSet.assign_loop1 PTable.appendLoop
-          by_cases hs : s = o.self <;> simp [hs]
+          by_cases hs : s = po.self <;> simp [hs]
         | item a =>
           unfold HashLink.HashSet.assign_loop1 PTable.appendLoop
           simp only [reduceCtorEq, if_false]
-          have e := gen_set_insert_rel hr hi t.order.length (o.items a).key (o.items a).value
+          have e := gen_set_insert_rel hr hi t.order.length (po.items a).key (po.items a).value
           rw [nxtAt_length] at e
           rw [e]
-          obtain ⟨r, e1, _, hr', _⟩ := hr.insert hi Kind.set t.order.length (o.items a).key (o.items a).value (Nat.le_refl _)
+          obtain ⟨r, e1, _, hr', _⟩ := hr.insert hi Kind.set t.order.length (po.items a).key (po.items a).value (Nat.le_refl _)
           rw [nxtAt_length] at e1
           rw [e1]
           simp only [Option.map_some]
-          exact ih r.1 _ _ hr' (hi.insert Kind.set t.order.length (o.items a).key (o.items a).value (Nat.le_refl _)).1
-    unfold HashLink.HashSet.assign PTable.assignFrom PTable.appendAll
-    rw [gen_set_clear]
-    obtain ⟨pt', e, hr', _⟩ := hr.clear hi
-    rw [e]
-    exact hloop _ pt' _ _ hr' hi.clear.1
+          exact ih r.1 _ _ hr' (hi.insert Kind.set t.order.length (po.items a).key (po.items a).value (Nat.le_refl _)).1
+    unfold HashLink.HashSet.assign
+    rw [e1]
+    simp only []
+    rw [hloop _ pc _ _ e2 hi.clear.1]
+    exact f1
   | -- `operator=` calls a member / helper that holds the loop (harmless change C02-h6)
     have hloop : ∀ (fuel : Nat) (pt : PTable) (t : Table) (i : Nxt), Rel pt t → t.Inv h →
-        HashLink.HashSet.appendAll_loop1 h fuel pt o i (.stl o.self) = PTable.appendLoop Kind.set h o.self o.items fuel i pt := by
+        HashLink.HashSet.appendAll_loop1 h fuel pt po i (.stl po.self) = PTable.appendLoop Kind.set h po.self po.items fuel i pt := by
       intro fuel
       induction fuel with
       | zero =>
@@ -1328,31 +1368,28 @@ theorem gen_set_assign {h : Nat → Nat} {pt : PTable} {t : Table} (hr : Rel pt 
         cases i with
         | stl s =>
           unfold HashLink.HashSet.appendAll_loop1 PTable.appendLoop
-          by_cases hs : s = o.self <;> simp [hs]
+          by_cases hs : s = po.self <;> simp [hs]
         | item a => simp [HashLink.HashSet.appendAll_loop1, PTable.appendLoop]
       | succ f ih =>
         intro pt t i hr hi
         cases i with
         | stl s =>
           unfold HashLink.HashSet.appendAll_loop1 PTable.appendLoop
-          by_cases hs : s = o.self <;> simp [hs]
+          by_cases hs : s = po.self <;> simp [hs]
         | item a =>
           unfold HashLink.HashSet.appendAll_loop1 PTable.appendLoop
           simp only [reduceCtorEq, if_false]
-          have e := gen_set_insert_rel hr hi t.order.length (o.items a).key (o.items a).value
+          have e := gen_set_insert_rel hr hi t.order.length (po.items a).key (po.items a).value
           rw [nxtAt_length] at e
           rw [e]
-          obtain ⟨r, e1, _, hr', _⟩ := hr.insert hi Kind.set t.order.length (o.items a).key (o.items a).value (Nat.le_refl _)
+          obtain ⟨r, e1, _, hr', _⟩ := hr.insert hi Kind.set t.order.length (po.items a).key (po.items a).value (Nat.le_refl _)
           rw [nxtAt_length] at e1
           rw [e1]
           simp only [Option.map_some]
-          exact ih r.1 _ _ hr' (hi.insert Kind.set t.order.length (o.items a).key (o.items a).value (Nat.le_refl _)).1
-    unfold HashLink.HashSet.assign HashLink.HashSet.appendAll PTable.assignFrom PTable.appendAll
-    rw [gen_set_clear]
-    obtain ⟨pt', e, hr', _⟩ := hr.clear hi
-    rw [e]
-    simp only [hloop _ pt' _ _ hr' hi.clear.1]
-    cases PTable.appendLoop Kind.set h o.self o.items o.size o.begin pt' <;> rfl
+          exact ih r.1 _ _ hr' (hi.insert Kind.set t.order.length (po.items a).key (po.items a).value (Nat.le_refl _)).1
+    unfold HashLink.HashSet.assign HashLink.HashSet.appendAll
+    rw [e1]
+    simp only [hloop _ pc _ _ e2 hi.clear.1, f1]
 
 /-- `HashSet::operator==` compares keys only -/
 theorem gen_set_equal (h : Nat → Nat) (t o : PTable) :
